@@ -5,7 +5,7 @@ CHECK = {
         "file offsets and sizes are bounded by (sectorCount+4) sectors per file (files may exceed the device, but not int64/uint32 limits)",
         "a hole source is never longer than the initial size of the file it backs (HoleSource contract: reads past its end are null bytes; only pool.ZeroHoleSource is used by callers in /repo)",
         "injected device faults are honest: a failing ReadAt/WriteAt transfers exactly the byte count it reports (0 or half the buffer)",
-        "after a Truncate that fails half-way because of an injected fault, only size, quota and sector conservation are still checked for that file (contents of the cut-off part are unspecified)",
+        "a Truncate that reports an injected failure must leave the file untouched (old length, every old byte, same sectors; an honest short device write may have zeroed exactly the bytes it reported, all past the requested size inside the new last sector); only when the hole source's own Truncate is the failing call the state 'sectors past the new size released, tail of the last sector zeroed, old length, cut-off part reads as the untruncated hole source' is accepted as well",
         "file handles are used from one goroutine at a time (documented: handles are not thread-safe)",
     ],
     "tests": [
